@@ -530,6 +530,8 @@ class Emitter:
                 return self.gname(av[1])
         if n.startswith('nondet_'):
             return 'vf_nd_' + n[7:]
+        if n in ('memcpy', 'memmove'):
+            return 'vf_' + n
         if n.startswith(PASSTHRU) or n in LIBC_BUILTIN or n in self.opts.roots:
             return n
         if n in self.opts.stubs:
@@ -1330,7 +1332,8 @@ class Emitter:
                 if tt is not None and n > 0:
                     ct = self.ctype(tt)
                     return ['*(%s*)%s = *(%s*)%s;' % (ct, A[0], ct, A[1])]
-            fn = 'memcpy' if name.startswith('llvm.memcpy.') else 'memmove'
+            fn = 'vf_memcpy' if name.startswith('llvm.memcpy.') else 'vf_memmove'
+            if args[2][1][0] == 'int': fn = fn[3:]   # constant length: CBMC's built-in is exact and cheap
             return ['if (%s) %s(%s, %s, %s);' % (A[2], fn, A[0], A[1], A[2])]   # a zero-length copy touches nothing (dest may be null)
         if name.startswith('llvm.memset.'):
             v0 = args[0][1]
@@ -1443,6 +1446,26 @@ uint32_t vf_nd_u32(void) { uint32_t vf_nd_value = nondet_u32(); VF_ND_KEEP(vf_nd
 uint64_t vf_nd_u64(void) { uint64_t vf_nd_value = nondet_u64(); VF_ND_KEEP(vf_nd_value); return vf_nd_value; }
 _Bool vf_nd_bool(void) { _Bool vf_nd_value = nondet_bool(); VF_ND_KEEP(vf_nd_value); return vf_nd_value; }
 void vf_observe(uint64_t x) {}
+/* CBMC 6.11's built-in memmove/memcpy with a non-constant length go through array_replace, which
+   mis-places the copy on arrays of structs under field sensitivity (observed: vector<KeyID>::erase
+   left element 0 unchanged).  These word/byte loops are used instead; their unwinding is bounded by
+   --unwindset (VF_COPY_UNWIND) and checked by unwinding assertions. */
+void* vf_memcpy(void* d, const void* s, size_t n) {
+  if ((n & 7) == 0) { for (size_t i = 0; i < n / 8; i++) ((uint64_t*)d)[i] = ((const uint64_t*)s)[i]; }
+  else { for (size_t i = 0; i < n; i++) ((uint8_t*)d)[i] = ((const uint8_t*)s)[i]; }
+  return d;
+}
+void* vf_memmove(void* d, const void* s, size_t n) {
+  _Bool backward = __CPROVER_POINTER_OBJECT(d) == __CPROVER_POINTER_OBJECT(s) && __CPROVER_POINTER_OFFSET(d) > __CPROVER_POINTER_OFFSET(s);
+  if ((n & 7) == 0) {
+    if (backward) { for (size_t i = n / 8; i > 0; i--) ((uint64_t*)d)[i - 1] = ((const uint64_t*)s)[i - 1]; }
+    else { for (size_t i = 0; i < n / 8; i++) ((uint64_t*)d)[i] = ((const uint64_t*)s)[i]; }
+  } else {
+    if (backward) { for (size_t i = n; i > 0; i--) ((uint8_t*)d)[i - 1] = ((const uint8_t*)s)[i - 1]; }
+    else { for (size_t i = 0; i < n; i++) ((uint8_t*)d)[i] = ((const uint8_t*)s)[i]; }
+  }
+  return d;
+}
 void* memchr(const void* s, int c, size_t n) { const unsigned char* p = (const unsigned char*)s; for (size_t i = 0; i < n; i++) if (p[i] == (unsigned char)c) return (void*)(p + i); return 0; }
 #else
 #define vf_nd_u8 nondet_u8
@@ -1450,6 +1473,8 @@ void* memchr(const void* s, int c, size_t n) { const unsigned char* p = (const u
 #define vf_nd_u32 nondet_u32
 #define vf_nd_u64 nondet_u64
 #define vf_nd_bool nondet_bool
+#define vf_memcpy memcpy
+#define vf_memmove memmove
 #endif
 int isspace(int c) { return c == ' ' || (c >= 9 && c <= 13); }
 int bcmp(const void* a, const void* b, size_t n) { return memcmp(a, b, n) != 0; }
@@ -1530,6 +1555,7 @@ def main():
     ap.add_argument('--stub-virtual-dtors', action='store_true')
     ap.add_argument('--stub-virtual', action='append', default=[], help='regex: vtable entries whose mangled name matches are replaced by an asserting stub')
     ap.add_argument('--define-external', action='append', default=[], help='regex: external globals matching get a zero-initialised definition')
+    ap.add_argument('--assert-external', action='append', default=[], help='regex: external functions matching get a body that asserts it is never called')
     ap.add_argument('--list', help='write the mangled names of all translated function bodies here')
     a = ap.parse_args()
     m = parse_module(open(a.input).read())
@@ -1554,7 +1580,7 @@ def main():
         fstub = Func(); fstub.name = 'vf_virtual_dtor_stub'; fstub.ret = VOID; fstub.params = [(('ptr', ('int', 8)), 'p')]
         m.funcs['vf_virtual_dtor_stub'] = fstub
     model_text = ''.join(open(mf).read() for mf in a.models)
-    model_names = set(re.findall(r'\bM_([A-Za-z0-9_]+)\s*\(', model_text))
+    model_names = set(re.findall(r'\bM_([A-Za-z0-9_]+)\s*[()]', model_text))
     opts.define_external = a.define_external
     opts.modelled = set(n for n, f in m.funcs.items() if f.is_decl and cid(n) in model_names)
     em = Emitter(m, opts)
@@ -1586,6 +1612,13 @@ def main():
             if f.vararg: ps.append('...')
             if not ps: ps = ['void']
             protos.append('%s %s(%s);' % (gen(f.ret), em.gname(n), ', '.join(ps)))
+            if f.is_decl and n not in opts.modelled and any(re.search(rx, n) for rx in a.assert_external):
+                named = ', '.join('%s a%d' % (p_, k_) for k_, p_ in enumerate(ps)) if ps != ['void'] else 'void'
+                rt_ = gen(f.ret)
+                retst = '' if rt_ == 'void' else (' return (%s)0;' % rt_ if (rt_.endswith('*') or rt_.startswith('uint') or rt_ == '_Bool') else ' { %s z_ = {0}; return z_; }' % rt_)
+                msg = re.sub(r'[^A-Za-z0-9_]', '_', n)[:80]
+                bodies.append('%s %s(%s) { __CPROVER_assert(0, "harness: unexpected call of %s"); __CPROVER_assume(0);%s }' % (rt_, em.gname(n), named, msg, retst))
+                continue
             if f.is_decl and not n.startswith(PASSTHRU) and n not in opts.modelled: missing.append(n)
             continue
             ps = [em.ctype(pt) for pt, _ in f.params]
@@ -1620,6 +1653,8 @@ def main():
             fo.write('void vf_main(void) { ir2c_run_ctors(); %s(); }\n' % a.root[0])
             fo.write('#ifdef VF_NATIVE_MAIN\nint main(void) { vf_main(); return 0; }\n#endif\n')
         fo.write('\n/* functions */\n' + '\n\n'.join(bodies) + '\n')
+        for n in m.funcs:
+            if n in fseen and n in opts.modelled: fo.write('#define VF_HAVE_%s 1\n' % cid(n))
         for mf in a.models:
             fo.write('\n/* models: %s */\n' % mf + open(mf).read())
     if a.list:
